@@ -285,18 +285,24 @@ def c15(tier, seed):
     return optchk.check(tier, seed)
 
 
-CHECKS = {"C15": c15, "C19": c19, "C17": c17, "C14": c14, "C03": c03, "C13": c13, "C02": c02, "C18": c18, "C16": c16, "C06": c06, "C07": c07, "C09": c09, "C08": c08, "C04": c04, "C05": c05, "C01": c01, "C10": c10, "C11": c11, "C12": c12}
+def c20(tier, seed):
+    from . import fuzz
+    return fuzz.check(tier, seed)
+
+
+CHECKS = {"C20": c20, "C15": c15, "C19": c19, "C17": c17, "C14": c14, "C03": c03, "C13": c13, "C02": c02, "C18": c18, "C16": c16, "C06": c06, "C07": c07, "C09": c09, "C08": c08, "C04": c04, "C05": c05, "C01": c01, "C10": c10, "C11": c11, "C12": c12}
 
 
 def setup():
     core.build_harness()
+    core.build_harness("checked")
     return 0
 
 
 SPEC_OF = {"C01": ("Trace_EngineRel", "Trace_EngineRel_all.cfg"), "C10": ("Trace_EngineRel", "Trace_EngineRel_func.cfg"),
            "C11": ("Trace_EngineRel", "Trace_EngineRel_func.cfg"), "C12": ("Trace_EngineRel", "Trace_EngineRel_func.cfg"),
            "C04": ("Trace_Regex", None), "C05": ("Trace_Cfg", None), "C08": ("Trace_Numeric", None),
-           "C09": ("Trace_Count", None), "C16": ("Trace_Naive", None), "C02": ("Trace_Split", None), "C15": ("Trace_Lang2", None), "C19": ("Trace_Tok", "Trace_Tok.cfg"), "C17": ("Trace_Ffi", None), "C14": ("Trace_EngineRel", "Trace_EngineRel_func.cfg"), "C03": ("Trace_EngineRel", "Trace_EngineRel_all.cfg"), "C13": ("Trace_Split", None), "C18": ("Trace_EngineRel", "Trace_EngineRel_all.cfg"), "C06": ("Trace_Json", None), "C07": ("Trace_Json", None)}
+           "C09": ("Trace_Count", None), "C16": ("Trace_Naive", None), "C02": ("Trace_Split", None), "C20": ("Trace_Lifecycle", None), "C15": ("Trace_Lang2", None), "C19": ("Trace_Tok", "Trace_Tok.cfg"), "C17": ("Trace_Ffi", None), "C14": ("Trace_EngineRel", "Trace_EngineRel_func.cfg"), "C03": ("Trace_EngineRel", "Trace_EngineRel_all.cfg"), "C13": ("Trace_Split", None), "C18": ("Trace_EngineRel", "Trace_EngineRel_all.cfg"), "C06": ("Trace_Json", None), "C07": ("Trace_Json", None)}
 
 
 def replay(prop, path):
